@@ -41,7 +41,7 @@ def scenario(ctx, i):
         tests = tests[:1]
     ok = ["scalar", "shared", "per_test"][int(r.integers(0, 3))]
     off = 0.0 if ok == "scalar" else (r.normal(size=(C, D)) * np.sqrt(v) * 0.2 if ok == "shared" else np.array([r.normal(size=(C, D)) * np.sqrt(v) * 0.2 for _ in tests]))
-    return dict(C=C, D=D, w=w, m=m, v=v, models=models, models_kind=mk, tests=tests, single=single, off_kind=ok, off=off, norm=bool(r.integers(0, 2)), ubm_is_map=bool(r.random() < 0.3))
+    return dict(C=C, D=D, w=w, m=m, v=v, models=models, models_kind=mk, tests=tests, single=single, off_kind=ok, off=off, norm=bool(r.integers(0, 2)), ubm_is_map=bool(r.random() < 0.3), ubm_warm_start=bool(r.random() < 0.3))
 
 
 def call_impl(sc):
@@ -49,6 +49,11 @@ def call_impl(sc):
 
     ubm = gen.mk_gmm(sc["w"], sc["m"], sc["v"])
     ubm_arg = ubm
+    if sc.get("ubm_warm_start") and not sc["ubm_is_map"]:
+        # an ML machine that was warm-started from another one (GMMMachine(trainer="ml", ubm=init)) is a UBM in its own right
+        init = gen.mk_gmm(np.array(sc["w"])[::-1].copy(), np.array(sc["m"]) - 0.7, np.array(sc["v"]) * 2.5)
+        ubm_arg = GMMMachine(sc["C"], trainer="ml", ubm=init)
+        ubm_arg.weights, ubm_arg.means, ubm_arg.variances = np.array(sc["w"]), np.array(sc["m"]), np.array(sc["v"])
     if sc["ubm_is_map"]:
         ubm_arg = GMMMachine(sc["C"], trainer="map", ubm=ubm)
         ubm_arg.means = np.array(sc["m"]) + 1.0  # the adapted machine's own means, variances and weights must be ignored
